@@ -39,6 +39,9 @@ def case_list(name, label, cfg, tier):
     if 'param_identifier_size' not in cfg:
         for p in domains.profiles(6):
             cases.append((p, 6, 'mixed-ids'))
+    for p in domains.profiles(6):
+        if len(set(p)) < len(p):
+            cases.append((p, 6, 'aliased'))
     lens = [v for v in domains.around(sse.special_lengths(name, cfg, tier)) if v <= MAXLEN[tier]]
     if label not in ('base', 'default', 'default-s256') and tier == 'quick':
         lens = [v for v in lens if v <= 300]
